@@ -4,66 +4,99 @@ into Lean definitions over `Operon.Atp.Store` -> lean/Operon/Gen/AtpTranslated.l
 The theorems `c04_translation_agrees_<op>` (Props/C04.lean) prove each translated function equal to the
 hand-written model function, so every C04/C05 theorem about the model is a theorem about what this translator
 read from the source *now*; a behavioural change of a region body breaks the agreement theorem by name, a
-harmless rewrite inside the supported subset keeps everything green.
+behaviour-preserving rewrite inside the supported subset keeps everything green.
 
 Translated: consume, regenerate, transfer_to (its `with self._lock:` block = withdraw half; the tail must be
-`other.regenerate(amount, energy_type)` [print] `return True` = deposit half), convert_nadh_to_atp,
+`other.regenerate(amount, energy_type)` [prints/logging] `return True` = deposit half), convert_nadh_to_atp,
 enter_dormancy, exit_dormancy, apply_debt_interest, reset.
 
-Method: symbolic execution of the statement list.  The environment maps every `self.<field>` and every local
-to a Lean expression over the initial store `s` and the parameters; an `if` forks the execution (the rest of the
-statement list is run in both branches — early `return`s need no special treatment), tests of `energy_type`
+Method: symbolic execution of the statement lists in continuation-passing style.  The state maps every model
+field to a Lean expression over the initial store `s` and the parameters; an `if` forks the execution (the rest
+of the statement list runs in both branches, so early `return`s need no special treatment); tests of the currency
 already decided on the path are resolved statically; the result is a tree of `if … then … else …` whose leaves
 are `(<store literal>, <result>)`.
 
-Supported subset (anything else => the definition of that operation is replaced by one that cannot agree with the
-model, and the construct met is named in a comment — fail closed):
-  assignments / augmented assignments (+=, -=) to `self.<known field>` and to locals; `if/elif/else`;
-  comparisons (one operator), `and` / `or` / `not`; `min`, `max`; integer literals, + - *; `True/False/None`;
-  `energy_type == EnergyType.X`, `self._state == MetabolicState.X`, `self._state = MetabolicState.X`;
-  `int(self._debt * self.debt_interest)` (-> floor of debt * rateNum / rateDen);
-  `with self._lock:` (transparent); an `if` whose body is only `print(...)` (dropped); `return <bool|int local|None>`;
-  `self._record_transaction(...)` (-> `record`: ntx := min (ntx + 1) 1000); `self._transactions.clear()` (ntx := 0);
-  `self._update_state()` as the last effect of a path, optionally followed by prints and `return <v>`
-  (-> `updateStateO cls obs <store>` / `thenReturn (updateStateO …) v`).
+What the model fields ARE is read off the public getters (so private storage may move freely): the values of
+`get_statistics()`'s dict (atp, gtp, nadh, max_*, debt, total_consumed, total_regenerated, operations_count,
+failed_operations, state) and `get_report().transactions_count = len(<list>)` name the attribute paths
+(`self._debt`, `self._counters.consumed`, …) that stand for the model's fields; `max_debt` and `debt_interest`
+are the public constructor attributes.
+
+Robust to (resolved, not pattern-matched):
+  * helper methods: any `self.<m>(…)`, `ATP_Store.<m>(…)`, `type(self).<m>(…)`, static methods, and methods of
+    private sub-objects created in `__init__` (`self._counters.clear()`) are inlined by call graph, whatever their
+    names, with positional/keyword/default arguments bound; helper calls inside expressions and conditions are
+    hoisted in evaluation order;
+  * `getattr(self, name)` / `setattr(self, name, v)` when `name` is a string known on the path (e.g. returned by a
+    helper that case-splits on the currency);
+  * class / module constants and class tables (`for a, b, c in self._TABLE:` is unrolled) — resolved to their values
+    by evaluating the imported module;
+  * local renames, temporaries, re-ordering of independent statements, docstrings, annotations, `-> None`, new
+    parameters with defaults (bound to the default), prints, `logging`/logger calls with side-effect-free arguments;
+  * new methods that are never called from a region body (read-only getters, `__repr__`) are simply not visited.
+`self._record_transaction(...)` and `self._update_state()` stay mapped by name to the model's `record` /
+`updateStateO` (their bodies — the list trimming, the float classifier and the observer call — are tied by the
+correspondence and by E5-metabolism); `<transactions>.clear()` is `ntx := 0`.
+
+Fail closed: anything else (loops over non-constant iterables, `while`, `try`, comprehension, unknown calls,
+writes to unknown attributes, `_update_state()` followed by further effects, helper calls under short-circuit
+operands, recursion) replaces the definition of THAT operation by one that cannot agree with the model and names
+the construct; the generated file always elaborates.
 """
 from __future__ import annotations
 
 import ast
+import copy
+import enum
+import importlib
+import logging
+import os
 from pathlib import Path
 
 OUT_REL = "Operon/Gen/AtpTranslated.lean"
 
-FIELDS = {  # python attribute -> (lean field, type)
-    "atp": ("atp", "int"), "gtp": ("gtp", "int"), "nadh": ("nadh", "int"),
-    "max_atp": ("maxAtp", "int"), "max_gtp": ("maxGtp", "int"), "max_nadh": ("maxNadh", "int"),
-    "_debt": ("debt", "int"), "max_debt": ("maxDebt", "int"), "_state": ("state", "state"),
-    "_total_consumed": ("consumed", "int"), "_total_regenerated": ("regenerated", "int"),
-    "_operations_count": ("ops", "nat"), "_failed_operations": ("failed", "nat"),
-}
 ORDER = ["atp", "gtp", "nadh", "maxAtp", "maxGtp", "maxNadh", "debt", "maxDebt", "state", "consumed", "regenerated",
          "ops", "failed", "ntx"]
+STAT_KEYS = {"atp": ("atp", "int"), "gtp": ("gtp", "int"), "nadh": ("nadh", "int"), "max_atp": ("maxAtp", "int"),
+             "max_gtp": ("maxGtp", "int"), "max_nadh": ("maxNadh", "int"), "debt": ("debt", "int"),
+             "total_consumed": ("consumed", "int"), "total_regenerated": ("regenerated", "int"),
+             "operations_count": ("ops", "nat"), "failed_operations": ("failed", "nat"), "state": ("state", "state")}
 CURS = {"ATP": "atp", "GTP": "gtp", "NADH": "nadh"}
 STATES = {"NORMAL": "normal", "CONSERVING": "conserving", "STARVING": "starving", "FEASTING": "feasting",
           "DORMANT": "dormant"}
+MAPPED = {"_record_transaction", "_update_state"}
+MAX_DEPTH = 8
 
 
 class Unsupported(Exception):
     pass
 
 
-class Env:
-    def __init__(self, params):
-        self.fields = {}                 # lean field -> expr (only the changed ones)
-        self.locals = {}                 # name -> (expr, type)
-        self.params = params             # python name -> (lean expr, type)
-        self.cur = {"atp", "gtp", "nadh"}  # what energy_type can still be on this path
-        self.updated = False             # _update_state() already executed on this path
+class StaticVal(ast.expr):
+    """an already evaluated value spliced into the AST (result of an inlined helper, element of a constant table)"""
+    _fields = ()
+
+    def __init__(self, val):
+        super().__init__()
+        self.val = val
+
+
+def paren(e: str) -> str:
+    return e if e.replace(".", "").replace("_", "").isalnum() or (e.startswith("(") and e.endswith(")") and e.count("(") == 1) else f"({e})"
+
+
+class State:
+    """what is shared along a path: the symbolic store, what is known about the currency, whether _update_state ran"""
+
+    def __init__(self):
+        self.fields = {}
+        self.cur = {"atp", "gtp", "nadh"}
+        self.updated = False
 
     def copy(self):
-        e = Env(self.params)
-        e.fields, e.locals, e.cur, e.updated = dict(self.fields), dict(self.locals), set(self.cur), self.updated
-        return e
+        s = State()
+        s.fields, s.cur, s.updated = dict(self.fields), set(self.cur), self.updated
+        return s
 
     def field(self, lean):
         return self.fields.get(lean, f"s.{lean}")
@@ -74,272 +107,635 @@ class Env:
         return "{ s with " + ", ".join(f"{k} := {self.fields[k]}" for k in ORDER if k in self.fields) + " }"
 
 
-def paren(e: str) -> str:
-    return e if e.replace(".", "").replace("_", "").isalnum() or (e.startswith("(") and e.endswith(")") and e.count("(") == 1) else f"({e})"
+class Frame:
+    def __init__(self, locals_, selfpath, depth):
+        self.locals, self.selfpath, self.depth = locals_, selfpath, depth
+
+    def copy(self):
+        return Frame(dict(self.locals), self.selfpath, self.depth)
+
+
+class Source:
+    """the module under test: AST + imported objects + the field map derived from the public getters"""
+
+    def __init__(self, repo: Path):
+        try:
+            self.module = importlib.import_module("operon_ai.state.metabolism")
+        except Exception as e:  # noqa
+            raise Unsupported(f"cannot import operon_ai.state.metabolism: {e!r}")
+        f = os.path.realpath(getattr(self.module, "__file__", "") or "")
+        if not f.startswith(os.path.realpath(str(repo)) + os.sep):
+            raise Unsupported(f"metabolism imported from {f}, not from {repo}")
+        self.tree = ast.parse(Path(f).read_text())
+        self.classes = {n.name: n for n in self.tree.body if isinstance(n, ast.ClassDef)}
+        if "ATP_Store" not in self.classes:
+            raise Unsupported("class ATP_Store not found")
+        self.cls = getattr(self.module, "ATP_Store")
+        self.subobjects = self._subobjects()
+        self.fieldmap, self.txpath = self._fieldmap()
+
+    def methods(self, classname):
+        c = self.classes.get(classname)
+        return {} if c is None else {m.name: m for m in c.body if isinstance(m, ast.FunctionDef)}
+
+    def _subobjects(self):
+        """self.<x> = <ClassName>(...) in __init__, for classes defined in this module"""
+        out = {}
+        init = self.methods("ATP_Store").get("__init__")
+        if init is None:
+            return out
+        for n in ast.walk(init):
+            tgt = val = None
+            if isinstance(n, ast.Assign) and len(n.targets) == 1:
+                tgt, val = n.targets[0], n.value
+            elif isinstance(n, ast.AnnAssign) and n.value is not None:
+                tgt, val = n.target, n.value
+            if isinstance(tgt, ast.Attribute) and isinstance(tgt.value, ast.Name) and tgt.value.id == "self" \
+                    and isinstance(val, ast.Call) and isinstance(val.func, ast.Name) and val.func.id in self.classes:
+                out[(tgt.attr,)] = val.func.id
+        return out
+
+    @staticmethod
+    def _path(node, aliases):
+        """attribute chain rooted at self (or at a local alias of such a chain) -> tuple of names"""
+        parts = []
+        while isinstance(node, ast.Attribute):
+            parts.append(node.attr)
+            node = node.value
+        if isinstance(node, ast.Name):
+            if node.id == "self":
+                return tuple(reversed(parts))
+            if node.id in aliases:
+                return aliases[node.id] + tuple(reversed(parts))
+        return None
+
+    def _fieldmap(self):
+        ms = self.methods("ATP_Store")
+        fm = {("max_debt",): ("maxDebt", "int"), ("debt_interest",): ("RATE", "rate")}
+        gs = ms.get("get_statistics")
+        if gs is None:
+            raise Unsupported("get_statistics not found (the model's fields are what it reports)")
+        aliases, ret = {}, None
+        for st in gs.body:
+            if isinstance(st, ast.Assign) and len(st.targets) == 1 and isinstance(st.targets[0], ast.Name):
+                p = self._path(st.value, aliases)
+                if p is not None:
+                    aliases[st.targets[0].id] = p
+            if isinstance(st, ast.Return):
+                ret = st.value
+        if not isinstance(ret, ast.Dict):
+            raise Unsupported("get_statistics does not return a dict literal")
+        seen = set()
+        for k, v in zip(ret.keys, ret.values):
+            if isinstance(k, ast.Constant) and k.value in STAT_KEYS:
+                lean, ty = STAT_KEYS[k.value]
+                if k.value == "state" and isinstance(v, ast.Attribute) and v.attr == "value":
+                    v = v.value
+                p = self._path(v, aliases)
+                if p is None or not p:
+                    raise Unsupported(f"get_statistics['{k.value}'] is not an attribute of the store")
+                fm[p] = (lean, ty)
+                seen.add(k.value)
+        if seen != set(STAT_KEYS):
+            raise Unsupported(f"get_statistics lacks {sorted(set(STAT_KEYS) - seen)}")
+        txpath = ("_transactions",)
+        gr = ms.get("get_report")
+        if gr is not None:
+            for n in ast.walk(gr):
+                if isinstance(n, ast.keyword) and n.arg == "transactions_count" and isinstance(n.value, ast.Call) \
+                        and isinstance(n.value.func, ast.Name) and n.value.func.id == "len" and len(n.value.args) == 1:
+                    p = self._path(n.value.args[0], {})
+                    if p:
+                        txpath = p
+        return fm, txpath
+
+    def static(self, obj):
+        """a Python value of the module under test -> translator value"""
+        if obj is None:
+            return "()", "unit"
+        if isinstance(obj, bool):
+            return ("true" if obj else "false"), "bool"
+        if isinstance(obj, int):
+            if obj < 0:
+                raise Unsupported("negative integer constant")
+            return str(obj), "lit"
+        if isinstance(obj, str):
+            return obj, "str"
+        if isinstance(obj, enum.Enum):
+            if isinstance(obj, getattr(self.module, "EnergyType", ())) and obj.name in CURS:
+                return CURS[obj.name], "curconst"
+            if isinstance(obj, getattr(self.module, "MetabolicState", ())) and obj.name in STATES:
+                return f"MState.{STATES[obj.name]}", "stateconst"
+            raise Unsupported(f"enum member {obj!r}")
+        if isinstance(obj, (tuple, list)):
+            return [self.static(x) for x in obj], "tuple"
+        if isinstance(obj, logging.Logger) or obj is logging:
+            return None, "logger"
+        raise Unsupported(f"constant of type {type(obj).__name__}")
 
 
 class Translator:
-    def __init__(self, fn: ast.FunctionDef, params: dict, kind: str, ret_type: str):
-        self.fn, self.params, self.kind, self.ret_type = fn, params, kind, ret_type
-        # kind: 'except' (result Store × Except Exc ret), 'plain' (Store × ret), 'store' (Store)
+    def __init__(self, src: Source, kind: str, ret_type: str, fall_through):
+        self.src, self.kind, self.ret_type, self.fall_through = src, kind, ret_type, fall_through
 
-    # ---- expressions ---------------------------------------------------------------------------------------
-    def expr(self, n, env: Env):
+    # ---- values -------------------------------------------------------------------------------------------------
+    def global_value(self, node):
+        """value of a Name / attribute chain rooted at a module-level name (EnergyType.ATP, _LIMIT, logger)"""
+        parts = []
+        n = node
+        while isinstance(n, ast.Attribute):
+            parts.append(n.attr)
+            n = n.value
+        if not isinstance(n, ast.Name) or not hasattr(self.src.module, n.id):
+            return None
+        obj = getattr(self.src.module, n.id)
+        for a in reversed(parts):
+            if not hasattr(obj, a):
+                return None
+            obj = getattr(obj, a)
+        return self.src.static(obj)
+
+    def self_attr(self, path, st: State):
+        fm = self.src.fieldmap
+        if path in fm:
+            lean, ty = fm[path]
+            return ("RATE", "rate") if ty == "rate" else (st.field(lean), ty)
+        if path == self.src.txpath:
+            return None, "txlist"
+        if len(path) == 1 and hasattr(self.src.cls, path[0]) and not callable(getattr(self.src.cls, path[0])):
+            return self.src.static(getattr(self.src.cls, path[0]))       # class constant read through self
+        raise Unsupported(f"read of self.{'.'.join(path)}")
+
+    def expr(self, n, st: State, fr: Frame):
+        if isinstance(n, StaticVal):
+            return n.val
         if isinstance(n, ast.Constant):
-            if n.value is True:
-                return "true", "bool"
-            if n.value is False:
-                return "false", "bool"
-            if n.value is None:
-                return "()", "unit"
-            if isinstance(n.value, int):
-                return str(n.value), "lit"
+            if n.value is True or n.value is False or n.value is None or isinstance(n.value, (int, str)):
+                return self.src.static(n.value)
             raise Unsupported(f"constant {n.value!r}")
+        if isinstance(n, ast.JoinedStr):
+            return "?", "str"
         if isinstance(n, ast.Name):
-            if n.id in env.locals:
-                return env.locals[n.id]
-            if n.id in env.params:
-                return env.params[n.id]
+            if n.id in fr.locals:
+                return fr.locals[n.id]
+            g = self.global_value(n)
+            if g is not None:
+                return g
             raise Unsupported(f"unknown name {n.id}")
-        if isinstance(n, ast.Attribute) and isinstance(n.value, ast.Name) and n.value.id == "self":
-            if n.attr in FIELDS:
-                lean, ty = FIELDS[n.attr]
-                return env.field(lean), ty
-            raise Unsupported(f"self.{n.attr} read")
+        if isinstance(n, ast.Attribute):
+            p = Source._path(n, {})
+            if p is not None:
+                return self.self_attr(fr.selfpath + p, st)
+            g = self.global_value(n)
+            if g is not None:
+                return g
+            # <enum-valued expression>.value used in messages only
+            raise Unsupported(f"attribute {ast.unparse(n)[:50]}")
+        if isinstance(n, ast.Tuple):
+            return [self.expr(e, st, fr) for e in n.elts], "tuple"
+        if isinstance(n, ast.UnaryOp) and isinstance(n.op, ast.USub):
+            a, ta = self.expr(n.operand, st, fr)
+            if ta in ("int", "lit"):
+                return f"-{paren(a)}", "int"
+            raise Unsupported("negation of a non-integer")
         if isinstance(n, ast.BinOp) and isinstance(n.op, (ast.Add, ast.Sub, ast.Mult)):
-            a, ta = self.expr(n.left, env)
-            b, tb = self.expr(n.right, env)
+            a, ta = self.expr(n.left, st, fr)
+            b, tb = self.expr(n.right, st, fr)
+            if isinstance(n.op, ast.Mult) and "rate" in (ta, tb):
+                d, td = (a, ta) if tb == "rate" else (b, tb)
+                if td == "int":
+                    return d, "int*rate"
             if not {ta, tb} <= {"int", "nat", "lit"}:
-                raise Unsupported("arithmetic on non-integers")
+                raise Unsupported(f"arithmetic on {ta}/{tb}")
             ty = "int" if "int" in (ta, tb) else ("nat" if "nat" in (ta, tb) else "lit")
             op = {ast.Add: "+", ast.Sub: "-", ast.Mult: "*"}[type(n.op)]
             return f"{paren(a)} {op} {paren(b)}", ty
-        if isinstance(n, ast.Call) and isinstance(n.func, ast.Name) and n.func.id in ("min", "max") and not n.keywords \
-                and len(n.args) >= 2:
-            parts = [self.expr(a, env) for a in n.args]
-            if not all(t in ("int", "nat", "lit") for _, t in parts):
-                raise Unsupported("min/max of non-integers")
-            acc = parts[0][0]
-            for p, _ in parts[1:]:
-                acc = f"{n.func.id} {paren(acc)} {paren(p)}"
-            return acc, "int"
-        if isinstance(n, ast.Call) and isinstance(n.func, ast.Name) and n.func.id == "int" and len(n.args) == 1:
-            a = n.args[0]
-            if isinstance(a, ast.BinOp) and isinstance(a.op, ast.Mult):
-                for x, y in ((a.left, a.right), (a.right, a.left)):
-                    if isinstance(y, ast.Attribute) and isinstance(y.value, ast.Name) and y.value.id == "self" \
-                            and y.attr == "debt_interest":
-                        d, td = self.expr(x, env)
-                        if td == "int":
-                            return f"{paren(d)} * s.rateNum / s.rateDen", "int"
-            raise Unsupported("int(...) other than int(<int> * self.debt_interest)")
-        raise Unsupported(f"expression {ast.dump(n)[:70]}")
+        if isinstance(n, ast.Call) and isinstance(n.func, ast.Name) and not n.keywords:
+            f = n.func.id
+            if f in ("min", "max") and len(n.args) >= 2:
+                parts = [self.expr(a, st, fr) for a in n.args]
+                if not all(t in ("int", "nat", "lit") for _, t in parts):
+                    raise Unsupported("min/max of non-integers")
+                acc = parts[0][0]
+                for p, _ in parts[1:]:
+                    acc = f"{f} {paren(acc)} {paren(p)}"
+                return acc, "int"
+            if f == "int" and len(n.args) == 1:
+                a, ta = self.expr(n.args[0], st, fr)
+                if ta == "int*rate":
+                    return f"{paren(a)} * s.rateNum / s.rateDen", "int"
+                if ta in ("int", "nat", "lit"):
+                    return a, ta
+                raise Unsupported("int(...) of something else than <int> * debt_interest")
+            if f == "getattr" and len(n.args) == 2:
+                return self.self_attr(self.attr_target(n.args[0], n.args[1], st, fr), st)
+        raise Unsupported(f"expression {ast.unparse(n)[:60]}")
 
-    # ---- conditions: returns (lean prop | True | False, env_if_true, env_if_false) ----------------------------
-    def cond(self, n, env: Env):
+    def attr_target(self, obj, name, st, fr):
+        if not (isinstance(obj, ast.Name) and obj.id == "self"):
+            raise Unsupported("getattr/setattr on something else than self")
+        v, t = self.expr(name, st, fr)
+        if t != "str":
+            raise Unsupported("getattr/setattr with an attribute name that is not known on this path")
+        return fr.selfpath + (v,)
+
+    # ---- conditions: (lean prop | True | False, state_if_true, state_if_false) -----------------------------------
+    def cond(self, n, st: State, fr: Frame):
         if isinstance(n, ast.BoolOp) and isinstance(n.op, ast.And):
-            props, cur_env = [], env
+            props, cur = [], st
             for v in n.values:
-                p, et, _ = self.cond(v, cur_env)
+                p, et, _ = self.cond(v, cur, fr)
                 if p is False:
-                    return False, None, env
+                    return False, None, st
                 if p is not True:
                     props.append(p)
-                cur_env = et
+                cur = et
             if not props:
-                return True, cur_env, None
-            return " ∧ ".join(paren(p) for p in props), cur_env, env
+                return True, cur, None
+            return " ∧ ".join(paren(p) for p in props), cur, st
         if isinstance(n, ast.BoolOp) and isinstance(n.op, ast.Or):
-            props, cur_env = [], env
+            props, cur = [], st
             for v in n.values:
-                p, _, ef = self.cond(v, cur_env)
+                p, _, ef = self.cond(v, cur, fr)
                 if p is True:
-                    return True, env, None
+                    return True, st, None
                 if p is not False:
                     props.append(p)
-                cur_env = ef
+                cur = ef
             if not props:
-                return False, None, cur_env
-            return " ∨ ".join(paren(p) for p in props), env, cur_env
+                return False, None, cur
+            return " ∨ ".join(paren(p) for p in props), st, cur
         if isinstance(n, ast.UnaryOp) and isinstance(n.op, ast.Not):
-            p, et, ef = self.cond(n.operand, env)
+            p, et, ef = self.cond(n.operand, st, fr)
             if p is True:
                 return False, None, et
             if p is False:
                 return True, ef, None
             return f"¬ {paren(p)}", ef, et
         if isinstance(n, ast.Compare) and len(n.ops) == 1:
-            l, r, op = n.left, n.comparators[0], n.ops[0]
-            # energy_type == EnergyType.X
-            if isinstance(l, ast.Name) and l.id == "energy_type" and isinstance(op, (ast.Eq, ast.NotEq)) \
-                    and isinstance(r, ast.Attribute) and isinstance(r.value, ast.Name) and r.value.id == "EnergyType" \
-                    and r.attr in CURS:
-                x = CURS[r.attr]
-                if isinstance(op, ast.NotEq):
-                    p, et, ef = self.cond(ast.Compare(left=l, ops=[ast.Eq()], comparators=[r]), env)
-                    return (not p if isinstance(p, bool) else f"¬ {paren(p)}"), ef, et
-                if env.cur == {x}:
-                    return True, env, None
-                if x not in env.cur:
-                    return False, None, env
-                et, ef = env.copy(), env.copy()
-                et.cur, ef.cur = {x}, env.cur - {x}
-                return f"cur = Cur.{x}", et, ef
-            # self._state == MetabolicState.X
-            if isinstance(l, ast.Attribute) and isinstance(l.value, ast.Name) and l.value.id == "self" and l.attr == "_state" \
-                    and isinstance(op, ast.Eq) and isinstance(r, ast.Attribute) and isinstance(r.value, ast.Name) \
-                    and r.value.id == "MetabolicState" and r.attr in STATES:
-                return f"{env.field('state')} = MState.{STATES[r.attr]}", env, env
-            a, ta = self.expr(l, env)
-            b, tb = self.expr(r, env)
+            op = n.ops[0]
+            a, ta = self.expr(n.left, st, fr)
+            b, tb = self.expr(n.comparators[0], st, fr)
+            if isinstance(op, (ast.Is, ast.IsNot)) and "unit" in (ta, tb):
+                same = ta == tb
+                return (same if isinstance(op, ast.Is) else not same), st, st
+            if isinstance(op, (ast.Eq, ast.NotEq)) and {ta, tb} <= {"cur", "curconst"}:
+                neg = isinstance(op, ast.NotEq)
+                if ta == tb == "curconst":
+                    r = (a == b) != neg
+                    return r, st, st
+                if ta == tb == "cur":
+                    return (not neg), st, st
+                x = b if tb == "curconst" else a
+                if st.cur == {x}:
+                    r = (True, st, None)
+                elif x not in st.cur:
+                    r = (False, None, st)
+                else:
+                    et, ef = st.copy(), st.copy()
+                    et.cur, ef.cur = {x}, st.cur - {x}
+                    r = (f"cur = Cur.{x}", et, ef)
+                if neg:
+                    p, et, ef = r
+                    return ((not p) if isinstance(p, bool) else f"¬ {paren(p)}"), ef, et
+                return r
+            if isinstance(op, (ast.Eq, ast.NotEq)) and {ta, tb} <= {"state", "stateconst"}:
+                if ta == tb == "stateconst":
+                    return ((a == b) != isinstance(op, ast.NotEq)), st, st
+                p = f"{a} = {b}"
+                return (p if isinstance(op, ast.Eq) else f"¬ ({p})"), st, st
             if not {ta, tb} <= {"int", "nat", "lit"}:
-                raise Unsupported("comparison of non-integers")
+                raise Unsupported(f"comparison of {ta} with {tb}")
             a, b = paren(a), paren(b)
-            if isinstance(op, ast.GtE):
-                return f"{b} ≤ {a}", env, env
-            if isinstance(op, ast.Gt):
-                return f"{b} < {a}", env, env
-            if isinstance(op, ast.LtE):
-                return f"{a} ≤ {b}", env, env
-            if isinstance(op, ast.Lt):
-                return f"{a} < {b}", env, env
-            if isinstance(op, ast.Eq):
-                return f"{a} = {b}", env, env
-            raise Unsupported("comparison operator")
-        if isinstance(n, ast.Name) and n.id in env.params and env.params[n.id][1] == "bool":
-            return f"{env.params[n.id][0]} = true", env, env
-        raise Unsupported(f"condition {ast.dump(n)[:70]}")
+            table = {ast.GtE: f"{b} ≤ {a}", ast.Gt: f"{b} < {a}", ast.LtE: f"{a} ≤ {b}", ast.Lt: f"{a} < {b}",
+                     ast.Eq: f"{a} = {b}", ast.NotEq: f"¬ ({a} = {b})"}
+            if type(op) not in table:
+                raise Unsupported("comparison operator")
+            return table[type(op)], st, st
+        v, t = self.expr(n, st, fr)
+        if t == "bool":
+            if v in ("true", "false"):
+                return v == "true", st, st
+            return f"{v} = true", st, st
+        if t == "unit":
+            return False, st, st
+        raise Unsupported(f"condition {ast.unparse(n)[:60]}")
 
-    # ---- statements ----------------------------------------------------------------------------------------
+    # ---- helper calls --------------------------------------------------------------------------------------------
+    def resolve_call(self, c, fr: Frame):
+        """-> (FunctionDef, selfpath for the callee or None for static, classname) if c calls a method of this module"""
+        f = c.func
+        if not isinstance(f, ast.Attribute):
+            return None
+        recv = f.value
+        path = Source._path(recv, {}) if not (isinstance(recv, ast.Name) and recv.id == "self") else ()
+        cls_call = (isinstance(recv, ast.Name) and recv.id == "ATP_Store") or \
+                   (isinstance(recv, ast.Call) and isinstance(recv.func, ast.Name) and recv.func.id == "type"
+                    and len(recv.args) == 1 and isinstance(recv.args[0], ast.Name) and recv.args[0].id == "self") or \
+                   (isinstance(recv, ast.Attribute) and recv.attr == "__class__" and isinstance(recv.value, ast.Name)
+                    and recv.value.id == "self")
+        if cls_call:
+            path = ()
+        if path is None:
+            return None
+        full = fr.selfpath + path if not cls_call else ()
+        classname = "ATP_Store" if full == () else self.src.subobjects.get(full)
+        if classname is None:
+            return None
+        fn = self.src.methods(classname).get(f.attr)
+        if fn is None or (classname == "ATP_Store" and f.attr in MAPPED):
+            return None
+        return fn, full, classname
+
     @staticmethod
-    def only_prints(body):
-        return all(isinstance(st, ast.Expr) and isinstance(st.value, ast.Call) and isinstance(st.value.func, ast.Name)
-                   and st.value.func.id == "print" for st in body)
+    def is_static(fn):
+        return any(isinstance(d, ast.Name) and d.id == "staticmethod" for d in fn.decorator_list)
 
-    def leaf(self, env: Env, ret):
-        """ret: lean value string or None (fell off the end)"""
+    def inline(self, c, st, fr, k, ind):
+        fn, selfpath, classname = self.resolve_call(c, fr)
+        if fr.depth >= MAX_DEPTH:
+            raise Unsupported("helper nesting too deep (recursion?)")
+        if fn.args.vararg or fn.args.kwarg or fn.args.kwonlyargs or fn.args.posonlyargs:
+            raise Unsupported(f"signature of helper {fn.name}")
+        if any(isinstance(d, ast.Name) and d.id in ("classmethod", "property") for d in fn.decorator_list):
+            raise Unsupported(f"decorator on helper {fn.name}")
+        names = [a.arg for a in fn.args.args]
+        if not self.is_static(fn):
+            names = names[1:]
+        vals = {}
+        if len(c.args) > len(names):
+            raise Unsupported(f"too many arguments for {fn.name}")
+        for nm, a in zip(names, c.args):
+            vals[nm] = self.expr(a, st, fr)
+        for kw in c.keywords:
+            if kw.arg is None or kw.arg not in names or kw.arg in vals:
+                raise Unsupported(f"keyword argument of {fn.name}")
+            vals[kw.arg] = self.expr(kw.value, st, fr)
+        defaults = dict(zip(names[len(names) - len(fn.args.defaults):], fn.args.defaults)) if fn.args.defaults else {}
+        for nm in names:
+            if nm not in vals:
+                if nm not in defaults:
+                    raise Unsupported(f"missing argument {nm} of {fn.name}")
+                vals[nm] = self.expr(defaults[nm], st, Frame({}, (), fr.depth))
+        callee = Frame(vals, selfpath, fr.depth + 1)
+        return self.run(list(fn.body), st, callee, k, ind)
+
+    def first_call(self, node):
+        """innermost-leftmost inlinable helper call inside an expression (None if none); refuses calls that sit under
+        short-circuit operands / conditional expressions, where hoisting would change when they run"""
+        found = []
+
+        def visit(n, guarded):
+            if isinstance(n, StaticVal):
+                return
+            if isinstance(n, ast.BoolOp):
+                for i, v in enumerate(n.values):
+                    visit(v, guarded or i > 0)
+                return
+            if isinstance(n, ast.IfExp):
+                visit(n.test, guarded)
+                visit(n.body, True)
+                visit(n.orelse, True)
+                return
+            for ch in ast.iter_child_nodes(n):
+                visit(ch, guarded)
+            if isinstance(n, ast.Call) and self._fr_resolve(n) is not None:
+                if guarded:
+                    raise Unsupported("helper call under a short-circuit operand")
+                found.append(n)
+        visit(node, False)
+        return found[0] if found else None
+
+    def with_calls(self, node, st, fr, cont, ind):
+        """evaluate the helper calls inside `node` in order, splice their results in, then cont(st, node', ind)"""
+        self._fr_resolve = lambda c: self.resolve_call(c, fr)
+        c = self.first_call(node)
+        if c is None:
+            return cont(st, node, ind)
+
+        def k(st2, val, ind2):
+            new = StaticVal(val if val is not None else ("()", "unit"))
+            if c is node:
+                return self.with_calls(new, st2, fr, cont, ind2)
+            node2 = _replace(node, c, new)
+            return self.with_calls(node2, st2, fr, cont, ind2)
+        return self.inline(c, st, fr, k, ind)
+
+    # ---- statements ----------------------------------------------------------------------------------------------
+    def is_noop_call(self, c, st, fr):
+        """print(...), logging.<x>(...), <logger>.<x>(...) with arguments that have no effects"""
+        f = c.func
+        ok = isinstance(f, ast.Name) and f.id == "print"
+        if isinstance(f, ast.Attribute):
+            try:
+                v = self.expr(f.value, st, fr)
+            except Unsupported:
+                v = None
+            ok = ok or (v is not None and v[1] == "logger")
+        if not ok:
+            return False
+        for a in list(c.args) + [kw.value for kw in c.keywords]:
+            for n in ast.walk(a):
+                if isinstance(n, (ast.Call, ast.Await, ast.Yield, ast.NamedExpr, ast.Lambda)) and \
+                        not (isinstance(n, ast.Call) and isinstance(n.func, ast.Name) and n.func.id in ("len", "str", "repr", "int")):
+                    raise Unsupported("call inside the arguments of a print/logging statement")
+        return True
+
+    def only_noops(self, body, st, fr):
+        return all(isinstance(x, ast.Expr) and ((isinstance(x.value, ast.Call) and self.is_noop_call(x.value, st, fr))
+                                                or isinstance(x.value, ast.Constant)) or isinstance(x, ast.Pass)
+                   for x in body)
+
+    def leaf(self, st: State, ret, ind):
+        pad = "  " * ind
+        if isinstance(ret, tuple):
+            ret = ret[0] if ret[1] != "unit" else "()"
         if self.kind == "store":
             if ret not in (None, "()"):
                 raise Unsupported("value returned from a procedure")
-            return env.store()
+            if st.updated:
+                raise Unsupported("_update_state in a region translated without it")
+            return pad + st.store()
         if ret is None:
             ret = self.fall_through
             if ret is None:
                 raise Unsupported("path falls off the end of a function that returns a value elsewhere")
         if self.kind == "plain":
-            if env.updated:
-                raise Unsupported("_update_state in a plain region")
-            return f"({env.store()}, {ret})"
-        # except
-        if env.updated:
-            u = f"updateStateO cls obs {paren(env.store())}"
-            return u if self.ret_type == "Unit" else f"thenReturn ({u}) {ret}"
-        return f"({env.store()}, Except.ok {ret})"
+            if st.updated:
+                raise Unsupported("_update_state in a region translated without it")
+            return pad + f"({st.store()}, {ret})"
+        if st.updated:
+            u = f"updateStateO cls obs {paren(st.store())}"
+            return pad + (u if self.ret_type == "Unit" else f"thenReturn ({u}) {ret}")
+        return pad + f"({st.store()}, Except.ok {ret})"
 
-    def run(self, stmts, env: Env, ind: int) -> str:
+    def assign(self, tgt, val, st: State, fr: Frame):
+        """val: translator value; returns (st', fr')"""
+        if isinstance(tgt, ast.Name):
+            fr = fr.copy()
+            v, t = val
+            fr.locals[tgt.id] = (v, "int" if t in ("lit", "nat") else t)
+            return st, fr
+        if isinstance(tgt, ast.Tuple):
+            v, t = val
+            if t != "tuple" or len(v) != len(tgt.elts):
+                raise Unsupported("tuple unpacking of a non-tuple")
+            for e, x in zip(tgt.elts, v):
+                st, fr = self.assign(e, x, st, fr)
+            return st, fr
+        path = Source._path(tgt, {}) if isinstance(tgt, ast.Attribute) else None
+        if path is None:
+            raise Unsupported("assignment target")
+        return self.write(fr.selfpath + path, val, st), fr
+
+    def write(self, path, val, st: State):
+        fm = self.src.fieldmap
+        if path not in fm or fm[path][1] == "rate":
+            raise Unsupported(f"assignment to self.{'.'.join(path)}")
+        lean, ty = fm[path]
+        v, t = val
+        st = st.copy()
+        if ty == "state":
+            if t not in ("state", "stateconst"):
+                raise Unsupported("state assigned from something that is not a metabolic state")
+        elif t not in ("int", "nat", "lit") or (ty == "nat" and t == "int"):
+            raise Unsupported(f"value of type {t} assigned to self.{'.'.join(path)}")
+        st.fields[lean] = v
+        return st
+
+    def run(self, stmts, st: State, fr: Frame, k, ind: int) -> str:
         pad = "  " * ind
         if not stmts:
-            return pad + self.leaf(env, None)
-        st, rest = stmts[0], stmts[1:]
-        if isinstance(st, ast.Expr) and isinstance(st.value, ast.Constant) and isinstance(st.value.value, str):
-            return self.run(rest, env, ind)                       # docstring
-        if isinstance(st, ast.With):
-            ok = len(st.items) == 1 and isinstance(st.items[0].context_expr, ast.Attribute) \
-                and st.items[0].context_expr.attr == "_lock" and st.items[0].optional_vars is None
+            return k(st, None, ind)
+        s0, rest = stmts[0], stmts[1:]
+        if isinstance(s0, ast.Pass) or (isinstance(s0, ast.Expr) and isinstance(s0.value, ast.Constant)):
+            return self.run(rest, st, fr, k, ind)
+        if isinstance(s0, ast.With):
+            ok = len(s0.items) == 1 and isinstance(s0.items[0].context_expr, ast.Attribute) \
+                and s0.items[0].context_expr.attr == "_lock" and s0.items[0].optional_vars is None
             if not ok:
                 raise Unsupported("with-statement other than `with self._lock:`")
-            return self.run(list(st.body) + rest, env, ind)
-        if isinstance(st, ast.Return):
-            v = "()" if st.value is None else self.expr(st.value, env)[0]
-            return pad + self.leaf(env, v)
-        if isinstance(st, ast.If) and not st.orelse and self.only_prints(st.body):
-            return self.run(rest, env, ind)                       # `if not self.silent: print(...)`
-        if isinstance(st, ast.Expr) and isinstance(st.value, ast.Call) and isinstance(st.value.func, ast.Name) \
-                and st.value.func.id == "print":
-            return self.run(rest, env, ind)
-        if env.updated:
-            raise Unsupported("statement other than print/return after _update_state()")
-        if isinstance(st, ast.If):
-            p, et, ef = self.cond(st.test, env)
-            if p is True:
-                return self.run(list(st.body) + rest, et, ind)
-            if p is False:
-                return self.run(list(st.orelse) + rest, ef, ind)
-            a = self.run(list(st.body) + rest, et.copy(), ind + 1)
-            b = self.run(list(st.orelse) + rest, ef.copy(), ind + 1)
-            return f"{pad}if {p} then\n{a}\n{pad}else\n{b}"
-        if isinstance(st, (ast.Assign, ast.AugAssign)):
-            if isinstance(st, ast.Assign):
-                if len(st.targets) != 1:
+            return self.run(list(s0.body) + rest, st, fr, k, ind)
+        if isinstance(s0, ast.Return):
+            if s0.value is None:
+                return k(st, ("()", "unit"), ind)
+            return self.with_calls(s0.value, st, fr,
+                                   lambda st2, node, ind2: k(st2, self.expr(node, st2, fr), ind2), ind)
+        if isinstance(s0, ast.Expr) and isinstance(s0.value, ast.Call) and self.is_noop_call(s0.value, st, fr):
+            return self.run(rest, st, fr, k, ind)
+        if isinstance(s0, ast.If) and not s0.orelse and self.only_noops(s0.body, st, fr) and \
+                self.first_call_safe(s0.test, fr) is None:
+            return self.run(rest, st, fr, k, ind)                 # `if not self.silent: print(...)`
+        if st.updated:
+            raise Unsupported("statement other than print/logging/return after _update_state()")
+        if isinstance(s0, ast.If):
+            def after(st2, test, ind2):
+                p, et, ef = self.cond(test, st2, fr)
+                if p is True:
+                    return self.run(list(s0.body) + rest, et, fr, k, ind2)
+                if p is False:
+                    return self.run(list(s0.orelse) + rest, ef, fr, k, ind2)
+                a = self.run(list(s0.body) + rest, et.copy(), fr.copy(), k, ind2 + 1)
+                b = self.run(list(s0.orelse) + rest, ef.copy(), fr.copy(), k, ind2 + 1)
+                pd = "  " * ind2
+                return f"{pd}if {p} then\n{a}\n{pd}else\n{b}"
+            return self.with_calls(s0.test, st, fr, after, ind)
+        if isinstance(s0, ast.For):
+            for n in ast.walk(s0):
+                if isinstance(n, (ast.Break, ast.Continue)):
+                    raise Unsupported("break/continue")
+            v, t = self.expr(s0.iter, st, fr)
+            if t != "tuple":
+                raise Unsupported("for-loop over something that is not a constant table")
+            unrolled = []
+            for elem in v:
+                unrolled.append(ast.Assign(targets=[s0.target], value=StaticVal(elem)))
+                unrolled.extend(copy.deepcopy(s0.body))
+            return self.run(unrolled + list(s0.orelse) + rest, st, fr, k, ind)
+        if isinstance(s0, (ast.Assign, ast.AugAssign, ast.AnnAssign)):
+            if isinstance(s0, ast.Assign):
+                if len(s0.targets) != 1:
                     raise Unsupported("multiple assignment targets")
-                tgt, val = st.targets[0], st.value
+                tgt, val = s0.targets[0], s0.value
+            elif isinstance(s0, ast.AnnAssign):
+                if s0.value is None:
+                    return self.run(rest, st, fr, k, ind)
+                tgt, val = s0.target, s0.value
             else:
-                if not isinstance(st.op, (ast.Add, ast.Sub)):
+                if not isinstance(s0.op, (ast.Add, ast.Sub)):
                     raise Unsupported("augmented assignment other than += / -=")
-                tgt = st.target
-                val = ast.BinOp(left=tgt, op=st.op, right=st.value)
-            env = env.copy()
-            if isinstance(tgt, ast.Attribute) and isinstance(tgt.value, ast.Name) and tgt.value.id == "self":
-                if tgt.attr not in FIELDS:
-                    raise Unsupported(f"assignment to self.{tgt.attr}")
-                lean, ty = FIELDS[tgt.attr]
-                if ty == "state":
-                    if isinstance(val, ast.Attribute) and isinstance(val.value, ast.Name) and val.value.id == "MetabolicState" \
-                            and val.attr in STATES:
-                        env.fields[lean] = f"MState.{STATES[val.attr]}"
-                    else:
-                        raise Unsupported("state assigned from something else than a MetabolicState member")
-                else:
-                    e, te = self.expr(val, env)
-                    if te not in ("int", "nat", "lit") or (ty == "nat" and te == "int"):
-                        raise Unsupported(f"type of value assigned to self.{tgt.attr}")
-                    env.fields[lean] = e
-                return self.run(rest, env, ind)
-            if isinstance(tgt, ast.Name):
-                e, te = self.expr(val, env)
-                env.locals[tgt.id] = (e, "int" if te in ("lit", "nat") else te)
-                return self.run(rest, env, ind)
-            raise Unsupported("assignment target")
-        if isinstance(st, ast.Expr) and isinstance(st.value, ast.Call):
-            c = st.value
+                tgt = s0.target
+                val = ast.BinOp(left=copy.deepcopy(tgt), op=s0.op, right=s0.value)
+
+            def after(st2, node, ind2):
+                st3, fr3 = self.assign(tgt, self.expr(node, st2, fr), st2, fr)
+                return self.run(rest, st3, fr3, k, ind2)
+            return self.with_calls(val, st, fr, after, ind)
+        if isinstance(s0, ast.Expr) and isinstance(s0.value, ast.Call):
+            c = s0.value
             f = c.func
-            if isinstance(f, ast.Attribute) and isinstance(f.value, ast.Name) and f.value.id == "self":
-                if f.attr == "_record_transaction":
-                    env = env.copy()
-                    env.fields["ntx"] = f"min ({env.field('ntx')} + 1) 1000"
-                    return self.run(rest, env, ind)
-                if f.attr == "_update_state" and not c.args and not c.keywords:
+            if isinstance(f, ast.Name) and f.id == "setattr" and len(c.args) == 3 and not c.keywords:
+                def after(st2, node, ind2):
+                    path = self.attr_target(c.args[0], c.args[1], st2, fr)
+                    return self.run(rest, self.write(path, self.expr(node, st2, fr), st2), fr, k, ind2)
+                return self.with_calls(c.args[2], st, fr, after, ind)
+            if isinstance(f, ast.Attribute):
+                recv_self = isinstance(f.value, ast.Name) and f.value.id == "self"
+                if recv_self and fr.selfpath == () and f.attr == "_record_transaction":
+                    st = st.copy()
+                    st.fields["ntx"] = f"min ({st.field('ntx')} + 1) 1000"
+                    return self.run(rest, st, fr, k, ind)
+                if recv_self and fr.selfpath == () and f.attr == "_update_state" and not c.args and not c.keywords:
                     if self.kind != "except":
                         raise Unsupported("_update_state() in a region translated without exceptions")
-                    env = env.copy()
-                    env.updated = True
-                    return self.run(rest, env, ind)
-            if isinstance(f, ast.Attribute) and f.attr == "clear" and isinstance(f.value, ast.Attribute) \
-                    and isinstance(f.value.value, ast.Name) and f.value.value.id == "self" and f.value.attr == "_transactions":
-                env = env.copy()
-                env.fields["ntx"] = "0"
-                return self.run(rest, env, ind)
+                    st = st.copy()
+                    st.updated = True
+                    return self.run(rest, st, fr, k, ind)
+                p = Source._path(f.value, {})
+                if p is not None and fr.selfpath + p == self.src.txpath and f.attr == "clear" and not c.args:
+                    st = st.copy()
+                    st.fields["ntx"] = "0"
+                    return self.run(rest, st, fr, k, ind)
+                if self.resolve_call(c, fr) is not None:
+                    return self.with_calls(c, st, fr, lambda st2, node, ind2: self.run(rest, st2, fr, k, ind2), ind)
             raise Unsupported(f"call {ast.unparse(c)[:60]}")
-        raise Unsupported(f"statement {type(st).__name__}")
+        raise Unsupported(f"statement {type(s0).__name__}")
 
-    def translate(self, body, fall_through=None) -> str:
-        self.fall_through = fall_through
-        return self.run(list(body), Env(self.params), 1)
+    def first_call_safe(self, node, fr):
+        self._fr_resolve = lambda c: self.resolve_call(c, fr)
+        try:
+            return self.first_call(node)
+        except Unsupported:
+            return node
+
+
+def _replace(node, old, new):
+    """copy of `node` with the sub-node `old` (by identity) replaced by `new`"""
+    class R(ast.NodeTransformer):
+        def visit(self, n):
+            if n is old:
+                return new
+            if isinstance(n, StaticVal):
+                return n
+            return self.generic_visit(n)
+    # NodeTransformer mutates in place: work on a structural copy that keeps identity only for `old`
+    memo = {id(old): old}
+    return R().visit(copy.deepcopy(node, memo))
 
 
 # ---------------------------------------------------------------------------------------------------------------
-P_COST = {"cost": ("(cost : Int)", "int"), "priority": ("prio", "nat"), "allow_debt": ("allowDebt", "bool"),
-          "energy_type": ("cur", "cur"), "operation": ("?", "str")}
-P_AMOUNT = {"amount": ("(amount : Int)", "int"), "energy_type": ("cur", "cur")}
+COST_ROLE = {"cost": ("(cost : Int)", "int"), "priority": ("prio", "nat"), "allow_debt": ("allowDebt", "bool"),
+             "energy_type": ("cur", "cur"), "operation": ("?", "str")}
+AMOUNT_ROLE = {"amount": ("(amount : Int)", "int"), "energy_type": ("cur", "cur"), "other": ("other", "store")}
 
 SPECS = [
-    # (python method, lean name, lean binder list, result type, kind, ret type, params, fall_through, fail value)
+    # (python method, lean name, lean binders, result type, kind, ret type, parameter roles, fall_through, fail value)
     ("consume", "consumeT", "(cls : Classifier) (obs : Obs) (s : Store) (cost : Nat) (cur : Cur) (allowDebt : Bool) (prio : Nat)",
-     "Store × Except Exc Bool", "except", "Bool", P_COST, None, "(s, Except.error (Exc.observer 4000001))"),
+     "Store × Except Exc Bool", "except", "Bool", COST_ROLE, None, "(s, Except.error (Exc.observer 4000001))"),
     ("regenerate", "regenerateT", "(cls : Classifier) (obs : Obs) (s : Store) (amount : Nat) (cur : Cur)",
-     "Store × Except Exc Unit", "except", "Unit", P_AMOUNT, "()", "(s, Except.error (Exc.observer 4000002))"),
+     "Store × Except Exc Unit", "except", "Unit", AMOUNT_ROLE, "()", "(s, Except.error (Exc.observer 4000002))"),
     ("transfer_to", "transferWithdrawT", "(s : Store) (amount : Nat) (cur : Cur)",
-     "Store × Bool", "plain", "Bool", P_AMOUNT, "true", "({ s with ntx := s.ntx + 4000003 }, false)"),
+     "Store × Bool", "plain", "Bool", AMOUNT_ROLE, "true", "({ s with ntx := s.ntx + 4000003 }, false)"),
     ("convert_nadh_to_atp", "convertT", "(s : Store) (amount : Nat)",
      "Store × Int", "plain", "Int", {"amount": ("(amount : Int)", "int")}, None, "({ s with ntx := s.ntx + 4000004 }, 0)"),
     ("enter_dormancy", "enterDormancyT", "(s : Store)", "Store", "store", "Unit", {}, "()", "{ s with ntx := s.ntx + 4000005 }"),
@@ -349,64 +745,82 @@ SPECS = [
     ("reset", "resetT", "(cls : Classifier) (obs : Obs) (s : Store)",
      "Store × Except Exc Unit", "except", "Unit", {}, "()", "(s, Except.error (Exc.observer 4000008))"),
 ]
+REQUIRED = {"consume": ["cost", "operation", "energy_type", "allow_debt", "priority"], "regenerate": ["amount", "energy_type"],
+            "transfer_to": ["other", "amount", "energy_type"], "convert_nadh_to_atp": ["amount"]}
 
 
-def _method(tree, name):
-    for n in tree.body:
-        if isinstance(n, ast.ClassDef) and n.name == "ATP_Store":
-            for m in n.body:
-                if isinstance(m, ast.FunctionDef) and m.name == name:
-                    return m
-    raise Unsupported(f"ATP_Store.{name} not found")
-
-
-def _transfer_parts(fn):
-    """body of transfer_to -> (statements of the `with self._lock:` block, deposit-half recognised?)"""
-    body = [st for st in fn.body if not (isinstance(st, ast.Expr) and isinstance(st.value, ast.Constant))]
+def _transfer_parts(tr: Translator, fn):
+    """body of transfer_to -> the `with self._lock:` block, after checking that the tail is the deposit half"""
+    fr = Frame({}, (), 0)
+    st = State()
+    body = [x for x in fn.body if not (isinstance(x, ast.Expr) and isinstance(x.value, ast.Constant))]
     if not body or not isinstance(body[0], ast.With):
         raise Unsupported("transfer_to does not start with `with self._lock:`")
-    tail = body[1:]
+    tail = [x for x in body[1:] if not (isinstance(x, ast.Expr) and isinstance(x.value, ast.Call) and tr.is_noop_call(x.value, st, fr))
+            and not (isinstance(x, ast.If) and not x.orelse and tr.only_noops(x.body, st, fr))]
     if not tail:
         raise Unsupported("transfer_to: no deposit half")
     c = tail[0]
     ok = (isinstance(c, ast.Expr) and isinstance(c.value, ast.Call) and isinstance(c.value.func, ast.Attribute)
-          and c.value.func.attr == "regenerate" and isinstance(c.value.func.value, ast.Name) and c.value.func.value.id == "other"
-          and [ast.unparse(a) for a in c.value.args] == ["amount", "energy_type"] and not c.value.keywords)
+          and c.value.func.attr == "regenerate" and isinstance(c.value.func.value, ast.Name) and c.value.func.value.id == "other")
+    if ok:
+        args = [ast.unparse(a) for a in c.value.args] + [f"{kw.arg}={ast.unparse(kw.value)}" for kw in c.value.keywords]
+        ok = args in (["amount", "energy_type"], ["amount", "energy_type=energy_type"],
+                      ["amount=amount", "energy_type=energy_type"])
     if not ok:
         raise Unsupported("transfer_to: the statement after the lock region is not other.regenerate(amount, energy_type)")
-    rest = [st for st in tail[1:] if not (isinstance(st, ast.If) and not st.orelse and Translator.only_prints(st.body))]
+    rest = tail[1:]
     if not (len(rest) == 1 and isinstance(rest[0], ast.Return) and isinstance(rest[0].value, ast.Constant)
             and rest[0].value.value is True):
-        raise Unsupported("transfer_to: tail is not `other.regenerate(...)`, optional print, `return True`")
+        raise Unsupported("transfer_to: tail is not `other.regenerate(...)`, optional print/logging, `return True`")
     return [body[0]]
 
 
 def translate_all(repo: Path):
     out, report = [], {}
+    src = err = None
     try:
-        tree = ast.parse((repo / "operon_ai" / "state" / "metabolism.py").read_text())
+        src = Source(Path(repo))
+    except Unsupported as e:
+        err = str(e)
     except Exception as e:  # noqa
-        tree = None
-        err = f"cannot parse metabolism.py: {e!r}"
-    for (py, lean, binders, rty, kind, ret, params, fall, fail) in SPECS:
+        err = f"cannot read the source: {e!r}"
+    for (py, lean, binders, rty, kind, ret, roles, fall, fail) in SPECS:
         try:
-            if tree is None:
+            if src is None:
                 raise Unsupported(err)
-            fn = _method(tree, py)
-            body = _transfer_parts(fn) if py == "transfer_to" else fn.body
-            want = {"consume": ["self", "cost", "operation", "energy_type", "allow_debt", "priority"],
-                    "regenerate": ["self", "amount", "energy_type"], "transfer_to": ["self", "other", "amount", "energy_type"],
-                    "convert_nadh_to_atp": ["self", "amount"]}.get(py, ["self"])
-            if [a.arg for a in fn.args.args] != want or fn.args.vararg or fn.args.kwarg or fn.args.kwonlyargs:
-                raise Unsupported(f"signature of {py} is {[a.arg for a in fn.args.args]}")
-            code = Translator(fn, params, kind, ret).translate(body, fall)
+            fn = src.methods("ATP_Store").get(py)
+            if fn is None:
+                raise Unsupported(f"ATP_Store.{py} not found")
+            if fn.args.vararg or fn.args.kwarg or fn.args.posonlyargs:
+                raise Unsupported(f"signature of {py}")
+            tr = Translator(src, kind, ret, fall)
+            names = [a.arg for a in fn.args.args][1:] + [a.arg for a in fn.args.kwonlyargs]
+            need = REQUIRED.get(py, [])
+            if [n for n in names if n in need] != need:
+                raise Unsupported(f"parameters of {py} are {names}")
+            defaults = dict(zip([a.arg for a in fn.args.args][len(fn.args.args) - len(fn.args.defaults):], fn.args.defaults))
+            defaults.update({a.arg: d for a, d in zip(fn.args.kwonlyargs, fn.args.kw_defaults) if d is not None})
+            locals_ = {}
+            for n in names:
+                if n in need:
+                    locals_[n] = roles[n]
+                elif n in defaults:                                 # a new parameter: callers that do not pass it
+                    locals_[n] = tr.expr(defaults[n], State(), Frame({}, (), 0))   # get the default
+                else:
+                    raise Unsupported(f"new required parameter {n} of {py}")
+            body = _transfer_parts(tr, fn) if py == "transfer_to" else list(fn.body)
+            code = tr.run(body, State(), Frame(locals_, (), 0), lambda st, val, ind: tr.leaf(st, val, ind), 1)
             out.append(f"/-- translated from `ATP_Store.{py}` -/\ndef {lean} {binders} : {rty} :=\n{code}\n")
             report[lean] = "ok"
         except Unsupported as e:
-            out.append(f"/-- `ATP_Store.{py}` is OUTSIDE the supported subset: {str(e)[:150]} — this definition cannot agree "
+            msg = str(e).replace("-/", "- /").replace("\n", " ")[:160]
+            out.append(f"/-- `ATP_Store.{py}` is OUTSIDE the supported subset: {msg} — this definition cannot agree "
                        f"with the model (fail closed) -/\ndef {lean} {binders} : {rty} :=\n  {fail}\n")
             report[lean] = f"unsupported: {e}"
-    # deposit half = the peer's regenerate
+        except RecursionError:
+            out.append(f"/-- `ATP_Store.{py}`: recursion while inlining (fail closed) -/\ndef {lean} {binders} : {rty} :=\n  {fail}\n")
+            report[lean] = "unsupported: recursion"
     out.append("/-- second half of `transfer_to`: `other.regenerate(amount, energy_type)` on the peer -/\n"
                "def transferDepositT (cls : Classifier) (obs : Obs) (other : Store) (amount : Nat) (cur : Cur) :\n"
                "    Store × Except Exc Unit :=\n  regenerateT cls obs other amount cur\n")
@@ -416,7 +830,7 @@ def translate_all(repo: Path):
 
 
 def run(repo: Path, lean: Path, write_if_changed) -> dict:
-    text, report = translate_all(repo)
-    changed = write_if_changed(lean / OUT_REL, text)
+    text, report = translate_all(Path(repo))
+    changed = write_if_changed(Path(lean) / OUT_REL, text)
     return {"id": "py2lean-metabolism", "facts_changed": bool(changed),
             "unsupported": {k: v for k, v in report.items() if v != "ok"}, "translated": [k for k, v in report.items() if v == "ok"]}
